@@ -524,16 +524,18 @@ class Model(Object):
         if len(bad_ids) != 0:
             raise ValueError(f"invalid identifiers in {repr(bad_ids)}")
 
-        for x in metabolite_list:
-            x._model = self
-        self.metabolites += metabolite_list
-
         # from cameo ...
+        # Create the constraints first: an identifier that the solver interface
+        # refuses (e.g. whitespace) raises here, before the model is changed.
         to_add = []
         for met in metabolite_list:
             if met.id not in self.constraints:
                 constraint = self.problem.Constraint(Zero, name=met.id, lb=0, ub=0)
                 to_add += [constraint]
+
+        for x in metabolite_list:
+            x._model = self
+        self.metabolites += metabolite_list
 
         self.add_cons_vars(to_add)
 
@@ -740,6 +742,16 @@ class Model(Object):
 
         # First check whether the reactions exist in the model.
         pruned = DictList(filter(existing_filter, reaction_list))
+
+        # Let the solver interface refuse unusable identifiers (e.g. whitespace)
+        # of the reactions and of the metabolites they bring along before the
+        # model is changed.
+        for reaction in pruned:
+            self.problem.Variable(reaction.id)
+            self.problem.Variable(reaction.reverse_id)
+            for metabolite in reaction.metabolites:
+                if metabolite.id not in self.metabolites:
+                    self.problem.Constraint(Zero, name=metabolite.id)
 
         context = get_context(self)
 
